@@ -147,202 +147,212 @@ def run(cfg):
     return R
 
 
+HEX8 = re.compile(r'0x([0-9a-fA-F]{8})\b')
+
+
+def named(nm, ln):
+    return re.search(r'(?<![\w/+-])' + re.escape(nm) + r'(?![\w/+-])', ln) is not None
+
+
+def build(ev, mod, cls, vals):
+    """an object of a class of the program, built by interpreting its constructor with parameters matched by name"""
+    init = mod.funcs.get(cls + '.__init__')
+    if init is None:
+        raise AnalysisError('anchor vanished: %s.__init__ in %s' % (cls, mod.rel))
+    kwargs = {}
+    for p_ in init.params[1:]:
+        if p_ not in vals:
+            raise AnalysisError('%s: constructor parameter %s is not part of the abstraction' % (init.loc, p_))
+        kwargs[p_] = vals[p_]
+    return ev.instantiate(mod, cls, kwargs=kwargs)
+
+
 def generator_rules(cfg, R):
-    tr = py.load(cfg, 'tools/tzdb/transformer.py')
-    ar = py.load(cfg, 'tools/zonedb/argenerator.py')
-    R.analysed['python_modules'] = [tr.rel, ar.rel]
+    """The compiler side, by interpretation (E-SEQ over the Python ast, acv/pyeval.py) on tagged miniature inputs:
+    hash_name on sample names; the zone_infos / zone_registry files rendered from a tagged database (ids next to their
+    names, registry rows in name order); the collision / duplicate-symbol / missing-target / duplicate-link guards on
+    inputs built to trip them."""
+    from .pyeval import PyEval, Raised
+    from .genrender import generate_files, tagged_db, era
+    ev = PyEval(cfg)
+    tr = ev.module('tools/tzdb/transformer.py')
+    ar = ev.module('tools/zonedb/argenerator.py')
+    ex = ev.module('tools/tzdb/extractor.py')
+    R.analysed['python_modules'] = [tr.rel, ar.rel, ex.rel]
+
+    def guarded(f, thunk):
+        try:
+            return ('ok', thunk())
+        except Raised as r_:
+            return ('raised', r_.what)
+        except (KeyError, IndexError, TypeError, AttributeError, ValueError) as x_:
+            raise AnalysisError('%s: the abstraction lacks %r' % (f.loc, x_))
+
     # G1 hash_name is djb2
-    R.rule('G1', 'hash_name: h0 = 5381; h <- (33*h + ord(c)) mod 2^32 over the characters of the name', floor=1)
+    R.rule('G1', 'hash_name(name) == djb2(name): h0 = 5381; h <- (33*h + ord(c)) mod 2^32 (interpreted on sample names, short and long)', floor=1)
     f = tr.fn('hash_name')
     R.instance('G1', 'tzdb.transformer.hash_name', f.loc)
-    msg = check_djb2(f)
-    if msg:
-        R.violation('G1', 'tzdb.transformer.hash_name', f.loc, msg)
-    # G2 zoneId=hash_name(name) where name is the emitted name
-    R.rule('G2', 'every zoneId= template argument is hash_name(v) with v the variable emitted as zoneFullName', floor=2)
-    for q, fn in ar.funcs.items():
-        for n in ast.walk(fn.node):
-            if isinstance(n, ast.Call):
-                kws = {k.arg: k.value for k in n.keywords if k.arg}
-                if 'zoneId' in kws:
-                    c = 'zonedb.argenerator.%s' % q
-                    loc = ar.loc(n)
-                    R.instance('G2', c, loc, ast.unparse(kws['zoneId']))
-                    v = kws['zoneId']
-                    ok = (isinstance(v, ast.Call) and isinstance(v.func, ast.Name) and v.func.id == 'hash_name'
-                          and len(v.args) == 1 and not v.keywords)
-                    if ok and ar.imports.get('hash_name') != 'tzdb.transformer.hash_name':
-                        ok = False
-                    if not ok:
-                        R.violation('G2', c, loc, 'zoneId is %s, not hash_name(<name>) of tzdb.transformer' % ast.unparse(v))
-                        continue
-                    full = kws.get('zoneFullName')
-                    if full is None or ast.dump(full) != ast.dump(v.args[0]):
-                        R.violation('G2', c, loc, 'the id is computed from %s but the emitted name is %s' %
-                                    (ast.unparse(v.args[0]), ast.unparse(full) if full is not None else '<none>'))
-    # G3 registry loop iterates sorted(zones_map.items()) and emits &kZone{normalize_name(key)}
-    R.rule('G3', 'registry rows are emitted in sorted(zones_map.items()) order', floor=1)
-    fn = ar.fn('ZoneRegistryGenerator.generate_registry_cpp')
-    loops = [n for n in ast.walk(fn.node) if isinstance(n, ast.For)]
+    samples = ['', 'a', 'UTC', 'Etc/GMT+12', 'America/Los_Angeles', 'Asia/Ho_Chi_Minh', 'America/Argentina/ComodRivadavia', 'x' * 40, '~' * 64, 'Tag/Zeta', 'bA', 'ab']
+    for s in samples:
+        st, v = guarded(f, lambda: ev.call(tr, 'hash_name', [s]))
+        if st != 'ok' or v != djb2(s):
+            R.violation('G1', 'tzdb.transformer.hash_name', f.loc, 'hash_name(%r) is %s, djb2 is 0x%08x' % (s, ('0x%08x' % v) if isinstance(v, int) else v, djb2(s)))
+            break
+    # G2 the id rendered next to a name is djb2 of that name
+    R.rule('G2', 'every zone id in the rendered zone_infos files is djb2 of the zone name it is rendered with', floor=2)
+    gfn = ar.fn('ArduinoGenerator.generate_files')
+
+    def files_of(db):
+        try:
+            return generate_files(cfg, 'arduino', db)
+        except Raised as r_:
+            raise AnalysisError('%s: generating the files of the tagged database raises %s' % (gfn.loc, r_.what))
+
+    def file_text(files, name):
+        if name not in files:
+            raise AnalysisError('%s: ArduinoGenerator.generate_files() writes %s, not %s' % (gfn.loc, sorted(files), name))
+        return files[name]
+    for scope in ('basic', 'extended'):
+        db = tagged_db(scope)
+        zn = list(db['zones_map'])
+        files = files_of(db)
+        for meth, fname in (('generate_infos_h', 'zone_infos.h'), ('generate_infos_cpp', 'zone_infos.cpp')):
+            fn = ar.funcs.get('ZoneInfosGenerator.' + meth) or gfn
+            c = 'zonedb.argenerator.ZoneInfosGenerator.%s' % meth
+            R.instance('G2', c, fn.loc, scope)
+            text = file_text(files, fname)
+            lines = text.split('\n')
+            seen = {n: 0 for n in zn}
+            msg = None
+            last = None
+            for ln in lines:
+                here = [n for n in zn if named(n, ln)]
+                if here:
+                    last = here[-1] if meth.endswith('_cpp') else None
+                for m in HEX8.finditer(ln):
+                    owner = here[0] if (here and not meth.endswith('_cpp')) else last
+                    v = int(m.group(1), 16)
+                    if owner is None:
+                        msg = msg or 'the id 0x%08x is rendered where no zone name precedes it' % v
+                    elif v != djb2(owner):
+                        msg = msg or 'zone %r is rendered with the id 0x%08x, djb2 of its name is 0x%08x%s' % (
+                            owner, v, djb2(owner), ''.join(' (that is djb2(%r))' % o for o in [normalize_name(owner)] + zn if djb2(o) == v))
+                    else:
+                        seen[owner] += 1
+            if msg is None:
+                miss = [n for n in zn if not seen[n]]
+                if miss:
+                    msg = 'no id is rendered for zone %r' % miss[0]
+            if msg:
+                R.violation('G2', c, fn.loc, '[%s] %s' % (scope, msg))
+    # G3 registry rows in name order
+    R.rule('G3', 'the rendered registry lists every zone once, ascending by zone name (bytewise)', floor=1)
+    fn = ar.funcs.get('ZoneRegistryGenerator.generate_registry_cpp') or gfn
     c = 'zonedb.argenerator.ZoneRegistryGenerator.generate_registry_cpp'
-    if not loops:
-        raise AnalysisError('%s: no loop emits registry rows' % fn.loc)
-    for lp in loops:
-        R.instance('G3', c, ar.loc(lp), ast.unparse(lp.iter))
-        it = lp.iter
-        ok = (isinstance(it, ast.Call) and isinstance(it.func, ast.Name) and it.func.id == 'sorted' and it.args
-              and 'zones_map' in ast.unparse(it.args[0]) and not any(k.arg in ('key', 'reverse') for k in it.keywords))
-        if not ok:
-            R.violation('G3', c, ar.loc(lp), 'registry rows are emitted in the order of %s, not sorted() by name' % ast.unparse(it))
-    # G4 collision detection is called and raises
-    R.rule('G4', '_detect_hash_collisions is on the path of transform() and raises on a collision', floor=2)
+    db = tagged_db('extended')
+    R.instance('G3', c, fn.loc)
+    text = file_text(files_of(db), 'zone_registry.cpp')
+    sym = {'kZone' + normalize_name(n): n for n in db['zones_map']}
+    rows = [sym.get(m.group(1), m.group(1)) for m in re.finditer(r'&\s*(kZone\w+)', text)]
+    want = sorted(db['zones_map'], key=lambda s: s.encode())
+    if rows != want:
+        R.violation('G3', c, fn.loc, 'registry rows are emitted in the order %s, the zones sorted by name are %s' % (rows, want))
+    # G4 collision detection
+    R.rule('G4', '_detect_hash_collisions is on the path of transform() and raises when two zone names share an id (interpreted on a colliding pair)', floor=2)
     tf = tr.fn('Transformer.transform')
-    called = [e for s in walk_stmts(tf.body) for ex in _stmt_exprs(s) for e in walk_expr(ex)
+    called = [e for s in walk_stmts(tf.body) for ex_ in _stmt_exprs(s) for e in walk_expr(ex_)
               if e.k == 'call' and e.a[0] == 'Transformer._detect_hash_collisions']
     R.instance('G4', 'tzdb.transformer.Transformer.transform', tf.loc)
     if not called:
         R.violation('G4', 'tzdb.transformer.Transformer.transform', tf.loc, 'transform() does not call _detect_hash_collisions')
-    symbol_guard_rule(R, tr)
-    link_target_rule(R, ar)
-    link_source_rules(cfg, R, tr)
+    e1 = [era('-', 10000, 'TST', 'raw')]
+    tvals = dict(zones_map={}, rules_map={}, links_map={}, scope='extended', start_year=2000, until_year=2050, until_at_granularity=60, offset_granularity=60, strict=True)
+
+    def transformer():
+        return build(ev, tr, 'Transformer', tvals)
     df = tr.fn('Transformer._detect_hash_collisions')
-    R.instance('G4', 'tzdb.transformer.Transformer._detect_hash_collisions', df.loc)
-    msg = check_collision_detector(df)
-    if msg:
-        R.violation('G4', 'tzdb.transformer.Transformer._detect_hash_collisions', df.loc, msg)
-
-
-def symbol_guard_rule(R, tr):
-    """Two zone names that normalise to one C++ symbol would share one kZone<X> definition (and one id constant):
-    remove_zones_and_links_with_similar_names keeps a table of the normalised names seen so far.  Every table that the
-    function both probes and fills must be probed and filled under the same key, and that key must be normalize_name()
-    of the name at hand."""
-    R.rule('G5', 'the duplicate-symbol guard probes and fills its table of seen symbols under normalize_name(name)', floor=2)
-    f = tr.fn('Transformer.remove_zones_and_links_with_similar_names')
-    n = f.node
-    norm = {}
-    for x in ast.walk(n):
-        if isinstance(x, ast.Assign) and len(x.targets) == 1 and isinstance(x.targets[0], ast.Name) and isinstance(x.value, ast.Call) \
-                and isinstance(x.value.func, ast.Name) and x.value.func.id == 'normalize_name':
-            norm[x.targets[0].id] = ast.unparse(x.value.args[0]) if x.value.args else '?'
-    if not norm:
-        R.instance('G5', 'tzdb.transformer.' + f.name, f.loc)
-        R.violation('G5', 'tzdb.transformer.' + f.name, f.loc, 'the function no longer computes normalize_name(name)')
-        return
-    for lp in [x for x in ast.walk(n) if isinstance(x, ast.For)]:
-        probes, stores = {}, {}
-        for x in ast.walk(lp):
-            if isinstance(x, ast.Call) and isinstance(x.func, ast.Attribute) and x.func.attr == 'get' and isinstance(x.func.value, ast.Name) and x.args:
-                probes.setdefault(x.func.value.id, []).append(x.args[0])
-            elif isinstance(x, ast.Compare) and len(x.ops) == 1 and isinstance(x.ops[0], (ast.In, ast.NotIn)) and isinstance(x.comparators[0], ast.Name):
-                probes.setdefault(x.comparators[0].id, []).append(x.left)
-            elif isinstance(x, ast.Subscript) and isinstance(x.value, ast.Name) and isinstance(x.ctx, ast.Store):
-                stores.setdefault(x.value.id, []).append(x.slice)
-        for t in sorted(set(probes) & set(stores)):
-            c = 'tzdb.transformer.%s:%s@%s' % (f.name, t, ast.unparse(lp.target).replace(' ', ''))
-            R.instance('G5', c, tr.loc(lp))
-            pk = {ast.unparse(k) for k in probes[t]}
-            sk = {ast.unparse(k) for k in stores[t]}
-            if not all(k in norm for k in pk):
-                R.violation('G5', c, tr.loc(lp), 'the table %s is probed with %s, which is not normalize_name(name)' % (t, sorted(pk)))
-            elif sk != pk:
-                R.violation('G5', c, tr.loc(lp), 'the table %s is probed with %s but filled under %s: a second name with the same symbol is never found in it, '
-                            'so both are emitted and share one kZone definition and one id' % (t, sorted(pk), sorted(sk)))
-        if not (set(probes) & set(stores)):
-            R.instance('G5', 'tzdb.transformer.%s:loop@%s' % (f.name, ast.unparse(lp.target).replace(' ', '')), tr.loc(lp))
-            R.violation('G5', 'tzdb.transformer.%s:loop@%s' % (f.name, ast.unparse(lp.target).replace(' ', '')), tr.loc(lp),
-                        'the loop keeps no table of seen symbols that it both probes and fills')
-
-
-def link_target_rule(R, ar):
-    """A link is emitted as a reference to kZone<target>: the generator has to know the target is among the emitted zones
-    (the transformer removes zones after it has pruned links, so a link can outlive its target).  In the loop that emits
-    the link items the target name must be looked up in self.zones_map - a subscript (KeyError on a missing target) or a
-    membership test - before the item is generated."""
-    R.rule('G6', 'a link item is generated only after its target was looked up in the emitted zones', floor=1)
-    f = ar.fn('ZoneInfosGenerator.generate_infos_cpp')
-    loops = [x for x in ast.walk(f.node) if isinstance(x, ast.For) and 'links_map' in ast.unparse(x.iter)
-             and any(isinstance(y, ast.Call) and ast.unparse(y.func).endswith('_generate_link_item') for y in ast.walk(x))]
-    if not loops:
-        raise AnalysisError('%s: no loop over links_map that calls _generate_link_item (anchor moved)' % f.loc)
-    for lp in loops:
-        c = 'zonedb.argenerator.%s:links' % f.name
-        R.instance('G6', c, ar.loc(lp))
-        tgt = lp.target.elts[1].id if isinstance(lp.target, ast.Tuple) and len(lp.target.elts) == 2 and isinstance(lp.target.elts[1], ast.Name) else None
-        ok = False
-        for s in lp.body:
-            if any(isinstance(y, ast.Call) and ast.unparse(y.func).endswith('_generate_link_item') for y in ast.walk(s)):
-                break
-            for y in ast.walk(s):
-                if isinstance(y, ast.Subscript) and ast.unparse(y.value) == 'self.zones_map' and isinstance(y.ctx, ast.Load) and ast.unparse(y.slice) == tgt:
-                    ok = True
-                if isinstance(y, ast.Compare) and len(y.ops) == 1 and isinstance(y.ops[0], (ast.In, ast.NotIn)) \
-                        and ast.unparse(y.comparators[0]) == 'self.zones_map' and ast.unparse(y.left) == tgt:
-                    ok = True
-        if not ok:
-            R.violation('G6', c, ar.loc(lp), 'link items are generated without looking the target %s up in self.zones_map: a link whose target zone was removed '
-                        'after the links were pruned is emitted bound to whatever zone owns the symbol kZone<normalize_name(target)>' % tgt)
-
-
-def link_source_rules(cfg, R, tr):
-    """Where a link gets its target on the way into the tables.
-    G7: the extractor stores a link only when its name has exactly one definition (a name defined twice with two targets
-        has no single target to denote).
-    G8: remove_links_to_missing_zones tests the link's own target against the zone table - it does not follow the target
-        through the link table (a name that is both a Zone and a Link is resolved in favour of the Zone later on, so
-        following links first binds the link to a different zone)."""
-    ex = py.load(cfg, 'tools/tzdb/extractor.py')
-    R.rule('G7', 'the extractor stores a link target only for a link name with exactly one definition', floor=1)
-    f = ex.fn('Extractor._process_links')
-    stores = [x for x in ast.walk(f.node) if isinstance(x, ast.Assign) and isinstance(x.targets[0], ast.Subscript) and 'links_map' in ast.unparse(x.targets[0].value)]
-    c = 'tzdb.extractor.Extractor._process_links:store'
-    if not stores:
-        raise AnalysisError('%s: no store into links_map (anchor moved)' % f.loc)
-    parents = {}
-    for p in ast.walk(f.node):
-        for ch in ast.iter_child_nodes(p):
-            parents[ch] = p
-    for st in stores:
-        R.instance('G7', c, ex.loc(st))
-        ok = False
-        cur = st
-        while cur in parents:
-            par = parents[cur]
-            if isinstance(par, ast.If) and 'len(lines)' in ast.unparse(par.test) and isinstance(par.test, ast.Compare) and len(par.test.ops) == 1:
-                op, k = par.test.ops[0], par.test.comparators[0]
-                kv = k.value if isinstance(k, ast.Constant) else None
-                in_body = cur in par.body
-                # the store must sit where len(lines) == 1 is implied
-                single_in_body = (isinstance(op, ast.Eq) and kv == 1) or (isinstance(op, ast.LtE) and kv == 1) or (isinstance(op, ast.Lt) and kv == 2)
-                single_in_else = (isinstance(op, ast.Gt) and kv == 1) or (isinstance(op, ast.GtE) and kv == 2) or (isinstance(op, ast.NotEq) and kv == 1)
-                ok = (in_body and single_in_body) or (not in_body and single_in_else)
-            cur = par
-        if not ok:
-            R.violation('G7', c, ex.loc(st), 'links_map[link_name] is filled from lines[0] also when the link name has several definitions: the link is emitted bound to its '
-                        'first target although the source names another one as well')
-    R.rule('G8', 'links to missing zones are detected on the link target itself, not on a target resolved through other links', floor=1)
+    cd = 'tzdb.transformer.Transformer._detect_hash_collisions'
+    R.instance('G4', cd, df.loc)
+    if djb2('Tag/bA') != djb2('Tag/ab'):
+        raise AnalysisError('internal: the colliding pair does not collide')
+    for zs, collide in (({'Tag/bA': e1, 'Tag/mid': e1, 'Tag/ab': e1}, True), ({'Tag/ab': e1, 'Tag/zz': e1, 'Tag/bA': e1}, True), ({'Tag/one': e1, 'Tag/two': e1}, False)):
+        st, v = guarded(df, lambda: ev.call(tr, 'Transformer._detect_hash_collisions', [dict(zs)], recv=transformer()))
+        if collide and st != 'raised':
+            R.violation('G4', cd, df.loc, 'zones %s: %s and %s share the id 0x%08x, yet no exception is raised: two names with one id pass unnoticed' % (sorted(zs), 'Tag/bA', 'Tag/ab', djb2('Tag/ab')))
+            break
+        if not collide and (st != 'ok' or not isinstance(v, dict) or sorted(v) != sorted(zs)):
+            R.violation('G4', cd, df.loc, 'zones %s have distinct ids, but the detector %s' % (sorted(zs), 'raises ' + str(v) if st == 'raised' else 'does not pass the zones on'))
+            break
+    # G5 duplicate symbols
+    R.rule('G5', 'zones and links whose names normalise to one C++ symbol are not both passed on (interpreted on colliding names)', floor=2)
+    sf = tr.fn('Transformer.remove_zones_and_links_with_similar_names')
+    cases = [('zones', {'Tag/A-b': e1, 'Tag/Zeta': e1, 'Tag/A_b': e1}, {'Tag/Fine': 'Tag/Zeta'}),
+             ('link-zone', {'Tag/Zeta': e1, 'Tag/Other': e1}, {'Tag/Fine': 'Tag/Zeta', 'Tag-Zeta': 'Tag/Other'}),
+             ('links', {'Tag/Zeta': e1}, {'Tag/L-k': 'Tag/Zeta', 'Tag/Fine': 'Tag/Zeta', 'Tag/L_k': 'Tag/Zeta'})]
+    for tag, zs, ls in cases:
+        c5 = 'tzdb.transformer.%s:%s' % (sf.name, tag)
+        R.instance('G5', c5, sf.loc)
+        st, v = guarded(sf, lambda: ev.call(tr, sf.name, [dict(zs), dict(ls)], recv=transformer()))
+        if st != 'ok' or not (isinstance(v, (tuple, list)) and len(v) == 2 and all(isinstance(x, dict) for x in v)):
+            R.violation('G5', c5, sf.loc, 'on zones %s and links %s the function %s' % (sorted(zs), sorted(ls), 'raises ' + str(v) if st == 'raised' else 'does not return (zones, links)'))
+            continue
+        out = list(v[0]) + list(v[1])
+        syms = {}
+        for n in out:
+            syms.setdefault(normalize_name(n), []).append(n)
+        dup = [ns for ns in syms.values() if len(ns) > 1]
+        if dup:
+            R.violation('G5', c5, sf.loc, 'the names %s are both passed on although they share the symbol kZone%s: they would share one definition and one id constant'
+                        % (dup[0], normalize_name(dup[0][0])))
+        elif 'Tag/Fine' not in v[1] or 'Tag/Zeta' not in v[0]:
+            R.violation('G5', c5, sf.loc, 'names with a symbol of their own are dropped: result %s' % sorted(out))
+    # G6 link to a zone that is not emitted
+    R.rule('G6', 'no link item is rendered for a link whose target is not among the emitted zones (the rendering fails instead)', floor=1)
+    gf = ar.funcs.get('ZoneInfosGenerator.generate_infos_cpp') or gfn
+    c6 = 'zonedb.argenerator.ZoneInfosGenerator.generate_infos_cpp:links'
+    R.instance('G6', c6, gf.loc)
+    db = tagged_db('extended')
+    db['links_map'] = dict(db['links_map'])
+    db['links_map']['Tag/Dangling'] = 'Tag/Missing'
+    st, v = guarded(gf, lambda: generate_files(cfg, 'arduino', db))
+    if st == 'ok':
+        v = ''.join(x for k_, x in sorted(v.items()) if k_.endswith('.cpp'))
+    if st == 'ok' and isinstance(v, str) and 'kZoneTag_Dangling' in v:
+        R.violation('G6', c6, gf.loc, 'link items are generated without looking the target up in self.zones_map: the link Tag/Dangling -> Tag/Missing, whose target zone is not emitted, '
+                    'is rendered bound to whatever owns the symbol kZoneTag_Missing')
+    # G7 a link name with two definitions
+    R.rule('G7', 'the extractor stores a link target only for a link name with exactly one definition (interpreted)', floor=1)
+    pf = ex.fn('Extractor._process_links')
+    c7 = 'tzdb.extractor.Extractor._process_links:store'
+    R.instance('G7', c7, pf.loc)
+    xo = build(ev, ex, 'Extractor', {'input_dir': 'IN'})
+    xo.attrs['link_lines'] = {'Tag/Once': ['Tag/T1'], 'Tag/Twice': ['Tag/T1', 'Tag/T2'], 'Tag/Also': ['Tag/T3']}
+    st, v = guarded(pf, lambda: ev.call(ex, pf.name, recv=xo))
+    lm = xo.attrs.get('links_map')
+    if st != 'ok' or not isinstance(lm, dict):
+        R.violation('G7', c7, pf.loc, '_process_links %s' % ('raises ' + str(v) if st == 'raised' else 'leaves no links_map'))
+    elif 'Tag/Twice' in lm:
+        R.violation('G7', c7, pf.loc, 'links_map[%r] is filled (%r) although the link name has two definitions (%s): the link is emitted bound to one target although the source names another as well'
+                    % ('Tag/Twice', lm['Tag/Twice'], ['Tag/T1', 'Tag/T2']))
+    elif lm.get('Tag/Once') != 'Tag/T1' or lm.get('Tag/Also') != 'Tag/T3':
+        R.violation('G7', c7, pf.loc, 'links with one definition are not stored under their target: %s' % lm)
+    # G8 link target tested itself
+    R.rule('G8', 'links to missing zones are detected on the link target itself, not on a target resolved through other links (interpreted)', floor=1)
     g = tr.fn('Transformer.remove_links_to_missing_zones')
     c8 = 'tzdb.transformer.Transformer.remove_links_to_missing_zones'
     R.instance('G8', c8, g.loc)
-    for x in ast.walk(g.node):
-        if isinstance(x, ast.Assign) and isinstance(x.targets[0], ast.Name) and any(
-                isinstance(y, (ast.Call, ast.Subscript)) and 'links_map' in ast.unparse(y) for y in ast.walk(x.value)):
-            tgt = x.targets[0].id
-            loops = [lp for lp in ast.walk(g.node) if isinstance(lp, ast.For) and isinstance(lp.target, ast.Tuple) and any(isinstance(e, ast.Name) and e.id == tgt for e in lp.target.elts)]
-            gpar = {}
-            for p_ in ast.walk(g.node):
-                for ch in ast.iter_child_nodes(p_):
-                    gpar[ch] = p_
-            guarded = False
-            cur = x
-            while cur in gpar:
-                par = gpar[cur]
-                if isinstance(par, ast.If) and 'zones_map' in ast.unparse(par.test) and tgt in ast.unparse(par.test):
-                    guarded = True      # the Zone table is consulted first; links are followed only for a target that is not a Zone
-                cur = par
-            if loops and not guarded:
-                R.violation('G8', c8, tr.loc(x), 'the loop variable %s (the link\'s target) is re-bound through links_map before it is tested against the zones: a name that is both a '
-                            'Zone and a Link then stands for the other link\'s target' % tgt)
+    params = g.params[1:]
+    vals = {'links_map': {'Tag/A': 'Tag/B', 'Tag/B': 'Tag/C', 'Tag/D': 'Tag/Gone'}, 'zones_map': {'Tag/B': e1, 'Tag/Z': e1}}
+    if sorted(params) != sorted(vals):
+        raise AnalysisError('%s: parameters %s are not (links_map, zones_map)' % (g.loc, params))
+    st, v = guarded(g, lambda: ev.call(tr, g.name, [vals[p_] for p_ in params], recv=transformer()))
+    if st != 'ok' or not isinstance(v, dict):
+        R.violation('G8', c8, g.loc, 'the function %s' % ('raises ' + str(v) if st == 'raised' else 'does not return the links'))
+    elif v.get('Tag/A') != 'Tag/B':
+        R.violation('G8', c8, g.loc, 'link Tag/A -> Tag/B, where Tag/B is both a Zone and a Link (-> Tag/C, missing): the result is %r; the link target is followed through the link table before it '
+                    'is tested against the zones, so a name that is both a Zone and a Link stands for the other link\'s target' % (v.get('Tag/A'),))
+    elif 'Tag/D' in v:
+        R.violation('G8', c8, g.loc, 'the link Tag/D -> Tag/Gone is kept although its target is not a zone')
 
 
 def _stmt_exprs(s):
@@ -352,118 +362,6 @@ def _stmt_exprs(s):
         for i in s.a[1]:
             out.extend(stmt_exprs(i))
     return out
-
-
-def check_djb2(f):
-    """Normal form of the loop body of hash_name."""
-    body = f.body
-    loops = [s for s in body if s.k == 'loop']
-    if len(loops) != 1 or loops[0].a[0] != 'foreach':
-        return 'expected one loop over the characters of the name'
-    lp = loops[0]
-    init = lp.a[1][0]
-    cvar = init.a[0]
-    it = init.a[1].a[0]
-    if cvar.k != 'var' or it.k != 'var' or it.a[0] != f.params[0]:
-        return 'loop does not iterate over the characters of parameter %s' % f.params[0]
-    # environment before the loop
-    env = {}
-    consts = {}
-    for s in body:
-        if s is lp:
-            break
-        if s.k == 'assign' and s.a[0].k == 'var' and s.a[2] == '=':
-            consts[s.a[0].a[0]] = gnf.Canon(env=dict(consts))(s.a[1])
-    rets = [s for s in body if s.k == 'return']
-    if len(rets) != 1 or rets[0].a[0] is None or rets[0].a[0].k != 'var':
-        return 'expected a single return of the accumulator'
-    acc = rets[0].a[0].a[0]
-    if acc not in consts or consts[acc].const_value() != 5381:
-        return 'accumulator %s does not start at 5381 (it starts at %r)' % (acc, consts.get(acc))
-    stmts = lp.a[4]
-    env = {k: v for k, v in consts.items() if k != acc}
-    cur = gnf.Poly.atom(('sym', 'H'))
-    env[acc] = cur
-    for s in stmts:
-        if s.k != 'assign' or s.a[0].k != 'var':
-            return 'loop body contains something other than assignments'
-        can = gnf.Canon(env=env, fn={'ord': 'ORD'})
-        v = can(s.a[1])
-        if s.a[2] != '=':
-            op = s.a[2][:-1]
-            v = can(E('bin', op, s.a[0], s.a[1]))
-        env[s.a[0].a[0]] = v
-    final = env[acc]
-    h = gnf.Poly.atom(('sym', 'H'))
-    ordc = gnf.Poly.atom(('fn', 'ORD', (gnf.Poly.atom(('sym', cvar.a[0])).key(),)))
-    want = gnf.Poly.atom(('fmod', (h * gnf.Poly.const(33) + ordc).key(), gnf.Poly.const(2 ** 32).key()))
-    if final != want:
-        return 'loop body computes %r, not (33*H + ord(c)) mod 2^32' % final
-    return None
-
-
-def check_collision_detector(df):
-    n = df.node
-    raises = [x for x in ast.walk(n) if isinstance(x, ast.Raise)]
-    if not raises:
-        return 'no raise statement: a collision would go unnoticed'
-    calls = [x for x in ast.walk(n) if isinstance(x, ast.Call) and isinstance(x.func, ast.Name) and x.func.id == 'hash_name']
-    if not calls:
-        return 'does not compute hash_name of the zone names'
-    # the raise must be control dependent on a lookup of the hash in the table of seen hashes
-    hv = set()
-    for x in ast.walk(n):
-        if isinstance(x, ast.Assign) and len(x.targets) == 1 and isinstance(x.targets[0], ast.Name) and x.value in calls:
-            hv.add(x.targets[0].id)
-
-    def is_hash(k):
-        return (isinstance(k, ast.Name) and k.id in hv) or k in calls
-
-    probes, stores, probe_vars = {}, {}, {}
-    for x in ast.walk(n):
-        if isinstance(x, ast.Call) and isinstance(x.func, ast.Attribute) and isinstance(x.func.value, ast.Name) and x.args:
-            if x.func.attr == 'get':
-                probes.setdefault(x.func.value.id, []).append(x.args[0])
-            elif x.func.attr in ('add', 'setdefault'):
-                stores.setdefault(x.func.value.id, []).append(x.args[0])
-        elif isinstance(x, ast.Compare) and len(x.ops) == 1 and isinstance(x.ops[0], (ast.In, ast.NotIn)) and isinstance(x.comparators[0], ast.Name):
-            probes.setdefault(x.comparators[0].id, []).append(x.left)
-        elif isinstance(x, ast.Subscript) and isinstance(x.value, ast.Name):
-            (stores if isinstance(x.ctx, ast.Store) else probes).setdefault(x.value.id, []).append(x.slice)
-        if isinstance(x, ast.Assign) and len(x.targets) == 1 and isinstance(x.targets[0], ast.Name):
-            for y in ast.walk(x.value):
-                if isinstance(y, ast.Call) and isinstance(y.func, ast.Attribute) and y.func.attr == 'get' and isinstance(y.func.value, ast.Name):
-                    probe_vars[x.targets[0].id] = y.func.value.id
-    tables_ = [t for t in probes if t in stores and any(is_hash(k) for k in probes[t] + stores[t])]
-    if not tables_:
-        return 'no table of seen hashes is both probed and filled with hash_name(name)'
-    for t in tables_:
-        for k in probes[t]:
-            if not is_hash(k):
-                return 'the seen table %s is probed with %s, which is not the hash of the name' % (t, ast.unparse(k))
-        for k in stores[t]:
-            if not is_hash(k):
-                return ('the seen table %s is probed with the hash but filled under the key %s: no later name can ever be found in it, '
-                        'so two names with one id pass unnoticed' % (t, ast.unparse(k)))
-    for r in raises:
-        p = _parent_if(n, r)
-        if p is None:
-            return 'raise is not guarded by a test of the seen-hash table'
-        names = {y.id for y in ast.walk(p.test) if isinstance(y, ast.Name)}
-        direct = any(isinstance(y, ast.Name) and y.id in tables_ for y in ast.walk(p.test))
-        if not direct and not any(probe_vars.get(v) in tables_ for v in names):
-            return 'the test guarding the raise (%s) does not consult the table of seen hashes' % ast.unparse(p.test)
-    return None
-
-
-def _parent_if(root, target):
-    for x in ast.walk(root):
-        if isinstance(x, ast.If):
-            for sub in x.body + x.orelse:
-                for y in ast.walk(sub):
-                    if y is target:
-                        return x
-    return None
 
 
 SELFTEST = [
